@@ -5,6 +5,16 @@ use bmv_core::subj::Cfg;
 use bmv_core::util::{J, PanicInfo, Rng, hex_short};
 use std::collections::{BTreeMap, BTreeSet};
 
+static FOCUS: std::sync::OnceLock<String> = std::sync::OnceLock::new();
+/// `--focus stream`: a small slice (Miri cross-interpreting another platform) spends its few
+/// histories on the subjects whose code handles byte order / integer width itself
+pub fn set_focus(f: &str) {
+    let _ = FOCUS.set(f.to_string());
+}
+pub fn focus() -> &'static str {
+    FOCUS.get().map(|s| s.as_str()).unwrap_or("")
+}
+
 #[derive(Clone, Copy, Debug, PartialEq, Eq)]
 pub enum Tier {
     Quick,
